@@ -50,6 +50,9 @@ func (c *appendAssignChecker) VisitStmt(stmt ast.Stmt) {
 }
 
 func (c *appendAssignChecker) checkAppend(x ast.Expr, call *ast.CallExpr) {
+	if len(call.Args) == 0 {
+		return // Not the builtin append: a user-declared namesake called without arguments
+	}
 	if call.Ellipsis != token.NoPos {
 		// Try to detect `xs = append(ys, xs...)` idiom.
 		for _, arg := range call.Args[1:] {
